@@ -1,33 +1,179 @@
 """Harness side of the certificate checks (C06, C07, C16): runs the code under test.
 
-Certificates are loaded through ``HSMCertificate.from_jsonfile`` with the module-level ``open``
-of admin.certificate_v1 replaced by an in-memory file layer; the clock of admin.certificate_v2
-is a fixed one; a step budget (``sys.settrace`` line counter on middleware frames) plus a
-wall-clock alarm turn endless loops into observations.
+Only the public surface the admin tools use is touched: ``HSMCertificate.from_jsonfile`` /
+``save_to_jsonfile`` on real files of a session directory (whatever file API the code uses),
+``validate_and_get_values``, ``to_dict``, ``HSMCertificateRoot``,
+``HSMCertificateV2ElementX509.from_pem``.  The clock is owned at every door a pure-Python
+implementation can take (see ``OwnedClock``); a step budget (``sys.settrace`` line counter on
+frames of the tree under test) plus a wall-clock alarm turn endless loops into observations.
 """
+import atexit
+import datetime as _datetime_module
 import json
 import os
+import shutil
 import signal
 import sys
+import tempfile
+import time as _time_module
+import types
 
 from . import env
-from .gen.certs import MemFS
+
+_REAL_DATETIME = _datetime_module.datetime
+_REAL_TIME = _time_module.time
+_REAL_TIME_NS = _time_module.time_ns
 
 
 class Budget(BaseException):
     """Raised inside the code under test when the step budget is exhausted."""
 
 
-class FixedClock:
-    """Stand-in for the ``datetime`` class as used by admin.certificate_v2 (``datetime.now(UTC)``)."""
+class _FixedMeta(type):
+    """Real datetime objects are instances of the stand-in class too (code that type-checks a
+    datetime against the patched name keeps working)."""
 
-    def __init__(self, now):
-        self._now = now
+    def __instancecheck__(cls, obj):
+        return isinstance(obj, _REAL_DATETIME)
 
-    def now(self, tz=None):
-        if tz is None:
-            return self._now.replace(tzinfo=None)
-        return self._now.astimezone(tz)
+    def __subclasscheck__(cls, sub):
+        return issubclass(sub, _REAL_DATETIME)
+
+
+def fixed_datetime_class(now):
+    """A subclass of datetime.datetime whose now()/utcnow()/today() give `now` (an aware UTC time)."""
+
+    class FixedDatetime(_REAL_DATETIME, metaclass=_FixedMeta):
+        @classmethod
+        def now(cls, tz=None):
+            if tz is None:
+                return now.astimezone().replace(tzinfo=None)
+            return now.astimezone(tz)
+
+        @classmethod
+        def utcnow(cls):
+            return now.astimezone(_datetime_module.timezone.utc).replace(tzinfo=None)
+
+        @classmethod
+        def today(cls):
+            return now.astimezone().replace(tzinfo=None)
+
+    return FixedDatetime
+
+
+class _ModuleProxy(types.ModuleType):
+    """A module with a few attributes replaced, everything else passed through."""
+
+    def __init__(self, real, **over):
+        super().__init__(real.__name__)
+        self.__dict__["_real"] = real
+        self.__dict__.update(over)
+
+    def __getattr__(self, name):
+        return getattr(self.__dict__["_real"], name)
+
+
+class OwnedClock:
+    """Context manager: the code under test sees `now` whichever way it asks for the time:
+
+    * every global of every loaded module of the tree under test that is the ``datetime`` class
+      (under any alias), the ``datetime`` module, the ``time`` module, ``time.time`` or
+      ``time.time_ns`` is replaced for the duration;
+    * ``sys.modules["datetime"]`` / ``["time"]`` are proxies for the duration, which covers imports
+      executed inside functions.
+
+    The attributes of the real ``datetime`` / ``time`` modules are never touched, and
+    ``warm_up_extensions`` makes the extension modules in use resolve (and cache) the real
+    ``datetime.datetime`` before the first context is entered.  A clock value captured before the
+    context is entered (at import time) is, rightly, not covered."""
+
+    def __init__(self, prefix, now):
+        self.prefix, self.now, self.saved, self.saved_modules = prefix, now, [], []
+
+    def _set(self, obj, name, val):
+        self.saved.append((obj, name, obj.__dict__[name]))
+        setattr(obj, name, val)
+
+    def __enter__(self):
+        now = self.now
+        fixed = fixed_datetime_class(now)
+        ts = now.timestamp()
+
+        def fake_time():
+            return ts
+
+        def fake_time_ns():
+            return int(ts * 1000000000)
+        dt_mod = _ModuleProxy(_datetime_module, datetime=fixed)
+        t_mod = _ModuleProxy(_time_module, time=fake_time, time_ns=fake_time_ns)
+        table = ((_REAL_DATETIME, fixed), (_datetime_module, dt_mod), (_time_module, t_mod),
+                 (_REAL_TIME, fake_time), (_REAL_TIME_NS, fake_time_ns))
+        for mod in list(sys.modules.values()):
+            f = getattr(mod, "__file__", None)
+            if not f or not f.startswith(self.prefix):
+                continue
+            for name, val in list(vars(mod).items()):
+                for real, rep in table:
+                    if val is real:
+                        self._set(mod, name, rep)
+        # imports executed inside functions of the tree under test (`import datetime`,
+        # `from time import time`) resolve through sys.modules at call time
+        for name, proxy in (("datetime", dt_mod), ("time", t_mod)):
+            self.saved_modules.append((name, sys.modules.get(name)))
+            sys.modules[name] = proxy
+        return self
+
+    def __exit__(self, *a):
+        for name, old in self.saved_modules:
+            if old is None:
+                sys.modules.pop(name, None)
+            else:
+                sys.modules[name] = old
+        self.saved_modules = []
+        for obj, name, old in reversed(self.saved):
+            setattr(obj, name, old)
+        self.saved = []
+        return False
+
+
+def warm_up_extensions():
+    """cryptography's Rust layer looks `datetime.datetime` up lazily and keeps it: make it do so now."""
+    from cryptography import x509
+    from cryptography.x509.oid import NameOID
+    from cryptography.hazmat.primitives import hashes
+    from cryptography.hazmat.primitives.asymmetric import ec
+    import warnings
+    key = ec.derive_private_key(7, ec.SECP256R1())
+    name = x509.Name([x509.NameAttribute(NameOID.COMMON_NAME, "warm-up")])
+    t0 = _REAL_DATETIME(2030, 1, 1, tzinfo=_datetime_module.timezone.utc)
+    cert = (x509.CertificateBuilder().subject_name(name).issuer_name(name).public_key(key.public_key())
+            .serial_number(5).not_valid_before(t0).not_valid_after(t0 + _datetime_module.timedelta(days=1))
+            .sign(key, hashes.SHA256()))
+    with warnings.catch_warnings():
+        warnings.simplefilter("ignore")
+        for attr in ("not_valid_before_utc", "not_valid_after_utc", "not_valid_before", "not_valid_after"):
+            getattr(cert, attr, None)
+
+
+# ---- verdicts as the tools read them: result[target][0], [1], [2] ------------------------------
+def verdict(g):
+    """-> ("ok", value, tweak) | ("fail", name) | None when `g` is not a verdict.  Any sequence
+    whose first item is a bool is accepted (tuple, list, named tuple)."""
+    if not isinstance(g, (tuple, list)) or len(g) < 2 or not isinstance(g[0], bool):
+        return None
+    if g[0]:
+        return ("ok", g[1], g[2] if len(g) > 2 else None)
+    return ("fail", g[1])
+
+
+def same_hex(a, b):
+    """Equality of two hex strings as bytes (case and blanks do not matter); None equals None."""
+    if a is None or b is None:
+        return a is None and b is None
+    try:
+        return bytes.fromhex(a) == bytes.fromhex(b)
+    except (ValueError, TypeError):
+        return a == b
 
 
 def _alarm(signum, frame):
@@ -43,14 +189,24 @@ class CertImpl:
             warnings.filterwarnings("ignore", category=CryptographyDeprecationWarning)
         except ImportError:
             pass
-        import admin.certificate as AC
-        import admin.certificate_v1 as V1
-        import admin.certificate_v2 as V2
-        self.AC, self.V1, self.V2 = AC, V1, V2
-        self.fs = MemFS()
+        warm_up_extensions()
+        import admin.certificate as AC      # the module the admin tools import from
+        self.AC = AC
         self.prefix = os.path.join(env.MIDDLEWARE, "")
-        self.real_datetime = V2.datetime
         self.max_lines_seen = 0
+        # real files (the code under test may open them any way it likes) in a session directory,
+        # on tmpfs when there is one; removed by the process that created it
+        base = "/dev/shm" if os.path.isdir("/dev/shm") and os.access("/dev/shm", os.W_OK) else None
+        self.dir = tempfile.mkdtemp(prefix="verif-cert-", dir=base)
+        self.owner = os.getpid()
+        atexit.register(self.cleanup)
+
+    def cleanup(self):
+        if os.getpid() == self.owner:
+            shutil.rmtree(self.dir, ignore_errors=True)
+
+    def path(self, name):
+        return os.path.join(self.dir, "%d-%s.json" % (os.getpid(), name))
 
     # ---- budgeted call ----------------------------------------------------------------
     def budgeted(self, fn, max_lines=40000, wall_s=30):
@@ -91,18 +247,22 @@ class CertImpl:
         return r
 
     # ---- loading ------------------------------------------------------------------------
-    def load_text(self, text, path="mem://cert.json"):
-        self.fs.files[path] = text
-        with env.patched((self.V1, "open", self.fs.open)):
-            return self.AC.HSMCertificate.from_jsonfile(path)
+    def load_text(self, text, name="cert"):
+        path = self.path(name)
+        with open(path, "w", encoding="utf-8") as f:
+            f.write(text)
+        return self.AC.HSMCertificate.from_jsonfile(path)
 
-    def load(self, doc, path="mem://cert.json"):
-        return self.load_text(json.dumps(doc), path)
+    def load(self, doc, name="cert"):
+        return self.load_text(json.dumps(doc), name)
 
-    def save(self, cert, path="mem://saved.json"):
-        with env.patched((self.V1, "open", self.fs.open)):
-            cert.save_to_jsonfile(path)
-        return self.fs.files[path]
+    def save(self, cert, name="saved"):
+        path = self.path(name)
+        if os.path.exists(path):
+            os.unlink(path)
+        cert.save_to_jsonfile(path)
+        with open(path, "r", encoding="utf-8") as f:
+            return f.read()
 
     # ---- roots ------------------------------------------------------------------------------
     def root_v1(self, pub_hex):
@@ -113,7 +273,7 @@ class CertImpl:
             pem, self.AC.HSMCertificateV2.ROOT_ELEMENT, self.AC.HSMCertificateV2.ROOT_ELEMENT)
 
     def clock(self, now):
-        return env.patched((self.V2, "datetime", FixedClock(now)))
+        return OwnedClock(self.prefix, now)
 
     # ---- whole runs ---------------------------------------------------------------------
     def _load(self, doc, guarded):
@@ -163,19 +323,45 @@ class CertImpl:
         return cls, frame
 
 
+_QUOTE_SHAPE = None
+
+
+def read_struct(obj, shape):
+    """Fields of a reported struct read through attributes (what the tools do), by the documented
+    field names; byte arrays as lower-case hex, integers as they are."""
+    out = {}
+    for k, v in shape.items():
+        got = getattr(obj, k)
+        if isinstance(v, dict):
+            out[k] = read_struct(got, v)
+        elif isinstance(got, (bytes, bytearray, memoryview)):
+            out[k] = bytes(got).hex()
+        else:
+            out[k] = got
+    return out
+
+
 def norm_v2_value(v):
     """Comparable form of a version-2 target value."""
+    global _QUOTE_SHAPE
     if isinstance(v, dict) and "sgx_quote" in v:
-        q = v["sgx_quote"]
-        return {"message": v.get("message"), "sgx_quote": q.to_dict()}
+        if _QUOTE_SHAPE is None:
+            from .refs import certref
+            _QUOTE_SHAPE = certref.quote_fields(bytes(certref.QUOTE_LEN))   # field names only
+        msg = v.get("message")
+        return {"message": msg.lower() if isinstance(msg, str) else msg,
+                "sgx_quote": read_struct(v["sgx_quote"], _QUOTE_SHAPE)}
     return v
 
 
 def norm_result(res):
     out = {}
     for k, v in res.items():
-        if isinstance(v, tuple) and len(v) == 3 and v[0] is True:
-            out[k] = (True, norm_v2_value(v[1]), v[2])
+        vd = verdict(v)
+        if vd is not None and vd[0] == "ok":
+            out[k] = (True, norm_v2_value(vd[1]), vd[2])
+        elif vd is not None:
+            out[k] = (False, vd[1])
         else:
             out[k] = v
     return out
